@@ -47,6 +47,22 @@ def run_cases(cases, n, nshards=None):
     return out
 
 
+def check_witnesses(ctx):
+    """the traces the Lean theorems `C12_witness_*` are about must be what the real VM does in the first sample of the
+    corresponding corpus program"""
+    q = driver("C12", ["witnesses"])
+    lean = dict(l.split("\t") for l in q.stdout.splitlines() if "\t" in l)
+    bad = []
+    for name, ops in lean.items():
+        c = json.load(open(os.path.join(VERIF, "corpus", "C12", name + ".json")))
+        p = mmh("C12", [], input=json.dumps({"id": name, "src": c["src"], "times": 1, "scheduler": c.get("scheduler", False)}) + "\n")
+        first = [l[2:] for l in p.stdout.splitlines() if l.startswith("s ") or l == "s"]
+        impl = " ".join(tok.split("=")[0] for tok in (first[0].split(" ") if first else []))
+        if impl != ops:
+            bad.append({"witness": name, "lean": ops, "implementation": impl})
+    return len(lean), bad
+
+
 def gen_cases(seed, plan):
     cases = []
     for prof, cnt in plan:
@@ -164,6 +180,10 @@ def main(ctx, args):
             failures.append((c, "crash: " + r["crash"][:300], r))
         else:
             failures.append((c, "model-vs-implementation: " + r["mismatch"], r))
+    nw, wbad = check_witnesses(ctx) if not args.replay else (0, [])
+    if wbad:
+        ctx.violation("the traces of the Lean witness theorems are no longer what the VM does for the witness programs: %s" % wbad[:2],
+                      {"stage": "correspond", "correspondence": "C12_witness_* traces vs first sample of corpus/C12/k*.json", "differences": wbad}, found_input=False)
     # ---- decide
     if stats["not_compiled"] * 10 > len(cases):
         ctx.violation("more than 10%% of the generated programs are rejected by the compiler (generator and language drifted apart): %s" % notcompiled[:5],
@@ -221,6 +241,7 @@ def main(ctx, args):
         "known_class_programs_with_count_N_ne_2N": stats["known_counts_differ_N_2N"],
         "programs_rejected_by_compiler": stats["not_compiled"],
         "model_impl_disagreements": stats["verdict_mismatch"],
+        "lean_witness_traces_compared_with_impl": nw,
         "use_after_release_or_illegal_ops": stats["verdict_unsafe"],
         "input_distribution": {"by_construct_class": dict(sorted(tagdist.items())),
                                "by_verdict": {k[8:]: v for k, v in stats.items() if k.startswith("verdict_")},
